@@ -41,6 +41,11 @@ impl KeGroup for Curve25519 {
             .ok()
             .map(MontgomeryPoint)
             .filter(|pk| pk != &MontgomeryPoint::identity())
+            // Reject points of small order, which force an all-zero shared secret
+            .filter(|pk| {
+                pk.mul_bits_be([true, false, false, false].into_iter())
+                    != MontgomeryPoint::identity()
+            })
             .ok_or(InternalError::PointError)
     }
 
